@@ -85,25 +85,20 @@ Res(T1, cv1, nxt1, free1, taint1, topw1, skipm1, disc1, pv, mv, st) ==
    disc |-> disc1, pv |-> pv, mv |-> mv, st |-> st]
 NoDisc == [g |-> {}, m |-> {}]
 
-RedrawStep(e, free0) ==
+RedrawCore(e, free0, T1, P, implied, shown, fullT) ==
   LET bad == e.op = "bad"
       samecanvas == e.op = "same"
       wd == e.wd
       wf == WF(wd, e.lay, Tr.cols, Tr.rows) /\ WidgetsOf(e.lay) \subseteq {w \in DOMAIN wd : wd[w].alive}
-      P == Sem(wd, e.lay, 0, 0, Tr.cols, Tr.rows)
       d == IF samecanvas THEN [cviews |-> cv, delall |-> FALSE, delw |-> {}]
            ELSE LibDiff(Id, wd, cv, P, TopLeaf(e.lay))
       gone == cv \ d.cviews
       cv1 == ResetGen(d.cviews)
-      T1 == Fold(T, e.toks, Gfx, 1)
       expexc == IF bad THEN "ValueError" ELSE ""
-      implied == ImpliedBy(Id, wd, P)
-      shown == Shown(T1, Gfx)
       judged == ~bad /\ ~taint
       newg == (shown \ implied) \ disc.g
       newm == (implied \ shown) \ disc.m
       leafimg == TopLeaf(e.lay) /\ e.lay.k = "img"
-      fullT == Fold(NewTerminal(Tr.cols, Tr.rows, 0, 0), e.full, Gfx, 1)
       leafy == TopLeaf(e.lay)
       pv == IF ~wf THEN V("bad-layout", "", 0)
             ELSE IF ~Tiles(P, Tr.cols, Tr.rows) THEN V("bad-layout", "pieces do not tile the screen", 0)
@@ -146,6 +141,19 @@ RedrawStep(e, free0) ==
          IF samecanvas THEN skipm ELSE leafimg,
          IF judged THEN [g |-> shown \ implied, m |-> implied \ shown] ELSE disc,
          pv, mv, st)
+
+\* TLC re-evaluates a LET definition at every use; the expensive values of a redraw step (the
+\* folded terminal, the pieces, the two placement sets) are therefore bound ONCE through
+\* singleton sets and handed to RedrawCore as values.
+Bind(v, F(_)) == CHOOSE r \in {F(x) : x \in {v}} : TRUE
+
+RedrawStep(e, free0) ==
+  Bind(Fold(T, e.toks, Gfx, 1), LAMBDA T1 :
+  Bind(Sem(e.wd, e.lay, 0, 0, Tr.cols, Tr.rows), LAMBDA P :
+  Bind(ImpliedBy(Id, e.wd, P), LAMBDA implied :
+  Bind(Shown(T1, Gfx), LAMBDA shown :
+  Bind(Fold(NewTerminal(Tr.cols, Tr.rows, 0, 0), e.full, Gfx, 1), LAMBDA fullT :
+    RedrawCore(e, free0, T1, P, implied, shown, fullT))))))
 
 ClearStep(e, free0) ==
   LET T1 == Fold(T, e.toks, Gfx, 1)
